@@ -5,6 +5,7 @@
 #include "../engine/src.h"
 #include "../genlib/view.h"
 #include "../genlib/entries.h"
+#include "../genlib/parse_input.h"
 #include <tins/utils/radiotap_parser.h>
 #include <tins/pdu_iterator.h>
 #include <cstdlib>
@@ -17,23 +18,6 @@ const size_t PROP_MAXLEN_QUICK = 2048;
 const size_t PROP_MAXLEN_THOROUGH = 65535 + 8;
 
 namespace {
-
-// exact-size heap copy of the input; optionally placed so that the END or the START of the buffer touches a redzone
-struct Block {
-    uint8_t* base = nullptr;
-    uint8_t* ptr = nullptr;
-    Block(const std::vector<uint8_t>& data, unsigned placement) {
-        size_t n = data.size();
-        size_t lead = placement == 0 ? 0 : (placement & 7);  // odd alignments; buffer end == block end in all cases
-        base = (uint8_t*)malloc(n + lead ? n + lead : 1);
-        ptr = base + lead;
-        if (n) memcpy(ptr, data.data(), n);
-        if (lead) memset(base, 0xAA, lead);
-    }
-    ~Block() { free(base); }
-    Block(const Block&) = delete;
-    Block& operator=(const Block&) = delete;
-};
 
 const char* const AUX_NAMES[] = {"aux:ICMPExtension", "aux:ICMPExtensionsStructure", "aux:validate_extensions", "aux:RSNInformation",
                                  "aux:DNS::soa_record", "aux:duid_llt", "aux:duid_en", "aux:duid_ll", "aux:multicast_address_record",
@@ -135,11 +119,9 @@ void touch_extras(const PDU& top, Ctx& ctx, std::multiset<int>& codes) {
 
 void prop(Src& s, Ctx& ctx) {
     const std::vector<Entry>& E = entries();
-    size_t total = E.size() + N_AUX;
-    size_t which = s.u8() % total;
-    unsigned placement = s.u8() & 7;
-    std::vector<uint8_t> data = s.rest();
-    if (data.size() > 65535) data.resize(65535);
+    unsigned placement = 0;
+    std::vector<uint8_t> data;
+    size_t which = gen_parse_input(s, ctx, N_AUX, placement, data);
     Block blk(data, placement);
     const uint32_t n = (uint32_t)data.size();
     ctx.hash(which);
